@@ -33,6 +33,15 @@ public:
   }
 };
 
+/// \brief A compression pointer that loops or points outside the message.
+/// Unlike other per-record decoding problems this is never tolerated: it fails the whole message,
+/// also when it is met while decoding a domain name inside RDATA.
+class DnsCompressionException : public DnsParseException
+{
+public:
+  explicit DnsCompressionException(const std::string &message) : DnsParseException(message) {}
+};
+
 /// \brief DNS message parsing and construction utilities
 class DnsMessage
 {
@@ -592,15 +601,15 @@ DnsMessage::decodeNameWithLoopDetection(const std::uint8_t *data, std::size_t of
       // Check for invalid pointer
       if (pointer >= size)
       {
-        throw DnsParseException("Invalid compression pointer: " + std::to_string(pointer) +
-                                ", message size: " + std::to_string(size));
+        throw DnsCompressionException("Invalid compression pointer: " + std::to_string(pointer) +
+                                      ", message size: " + std::to_string(size));
       }
 
       // Check for compression loops
       if (visitedPointers.find(pointer) != visitedPointers.end())
       {
-        throw DnsParseException("Compression pointer loop detected at offset: " +
-                                std::to_string(pointer));
+        throw DnsCompressionException("Compression pointer loop detected at offset: " +
+                                      std::to_string(pointer));
       }
       visitedPointers.insert(pointer);
 
@@ -690,14 +699,17 @@ inline std::size_t DnsMessage::decodeNameFromRdata(const std::uint8_t *messageDa
           (static_cast<std::size_t>(pointer) + 1) <
             messageSize) // Need at least 1 byte for length field
       {
-        decodeName(messageData, pointer, messageSize, name);
+        // Seed the loop detection with this first hop: a chain that leads back to the name it started
+        // from is then recognised as a loop (and not merely as an over-long name, which is tolerated)
+        std::unordered_set<std::uint16_t> visitedPointers{pointer};
+        decodeNameWithLoopDetection(messageData, pointer, messageSize, name, visitedPointers);
         return rdataOffset + 2; // Compression pointer is 2 bytes
       }
       else
       {
-        throw DnsParseException("Invalid compression pointer in RDATA: " + std::to_string(pointer) +
-                                " (message size=" + std::to_string(messageSize) +
-                                ", need at least 1 byte for name length)");
+        throw DnsCompressionException(
+          "Invalid compression pointer in RDATA: " + std::to_string(pointer) +
+          " (message size=" + std::to_string(messageSize) + ", need at least 1 byte for name length)");
       }
     }
   }
@@ -802,6 +814,12 @@ inline void DnsMessage::parseTypedRecord(const DnsResourceRecord &rr, DnsResult 
       // Unknown record type - keep in generic records
       break;
     }
+  }
+  catch (const DnsCompressionException &)
+  {
+    // A looping or out-of-range compression pointer is an attack or corruption, not a quirk of one
+    // record: reject the message instead of silently dropping the typed record.
+    throw;
   }
   catch (const std::exception &e)
   {
